@@ -183,12 +183,30 @@ pub struct Sweep {
 }
 
 fn check_sweep(s: &Sweep, rec: &mut Rec) -> CheckResult {
+    // the same documented outcome is required of every way of putting these bytes behind an Fst:
+    // opening them directly, and swapping them in through map_data on Fst, Map and Set
+    for opener in 0..4u8 {
+        check_sweep_via(s, opener, rec)?;
+    }
+    Ok(())
+}
+
+fn check_sweep_via(s: &Sweep, opener: u8, rec: &mut Rec) -> CheckResult {
     rec.eval();
     let b = &s.bytes;
     let n = b.len();
-    let r = match crate::engine::catch(|| fst::raw::Fst::new(&b[..]).map(|f| (f.len(), f.fst_type()))) {
+    let how = ["Fst::new", "Fst::map_data", "Map::map_data", "Set::map_data"][opener as usize];
+    static TINY: std::sync::OnceLock<Vec<u8>> = std::sync::OnceLock::new();
+    let tiny = || TINY.get_or_init(|| fst::raw::Builder::memory().into_inner().expect("empty fst")).clone();
+    let opened = crate::engine::catch(|| match opener {
+        0 => fst::raw::Fst::new(&b[..]).map(|f| (f.len(), f.fst_type())),
+        1 => fst::raw::Fst::new(tiny()).and_then(|f| f.map_data(|_| b.clone())).map(|f| (f.len(), f.fst_type())),
+        2 => fst::Map::new(tiny()).and_then(|m| m.map_data(|_| b.clone())).map(|m| (m.len(), m.as_fst().fst_type())),
+        _ => fst::Set::new(tiny()).and_then(|m| m.map_data(|_| b.clone())).map(|m| (m.len(), m.as_fst().fst_type())),
+    });
+    let r = match opened {
         Ok(r) => r,
-        Err(p) => vfail!("panic", "Fst::new panicked on a {}-byte input: {}; bytes {}", n, p, hex(b)),
+        Err(p) => vfail!("panic", "{} panicked on a {}-byte input: {}; bytes {}", how, n, p, hex(b)),
     };
     let version = if n >= 8 { Some(u64::from_le_bytes([b[0], b[1], b[2], b[3], b[4], b[5], b[6], b[7]])) } else { None };
     let is_format = |r: &Result<(usize, u64), fst::Error>| matches!(r, Err(fst::Error::Fst(fst::raw::Error::Format { size })) if *size == n);
@@ -196,25 +214,25 @@ fn check_sweep(s: &Sweep, rec: &mut Rec) -> CheckResult {
     let show = |r: &Result<(usize, u64), fst::Error>| format!("{:?}", r.as_ref().map_err(|e| format!("{:?}", e)));
     match version {
         None => {
-            vensure!(is_format(&r), "sweep-format", "input of {} bytes (too short to hold a version) gave {} instead of Format{{size}}", n, show(&r));
+            vensure!(is_format(&r), "sweep-format", "{}: input of {} bytes (too short to hold a version) gave {} instead of Format{{size}}", how, n, show(&r));
             rec.class("sweep:shorter_than_8");
         }
         Some(v) if v == 0 || v > 3 => {
             if n >= 36 {
-                vensure!(is_version(&r, v), "sweep-version", "version {} with {} bytes gave {} instead of Version{{expected:3,got:{}}}", v, n, show(&r), v);
+                vensure!(is_version(&r, v), "sweep-version", "{}: version {} with {} bytes gave {} instead of Version{{expected:3,got:{}}}", how, v, n, show(&r), v);
                 rec.class("sweep:unsupported_version");
             } else {
-                vensure!(is_version(&r, v) || is_format(&r), "sweep-version", "unsupported version {} with only {} bytes gave {} (must be a Version or Format error)", v, n, show(&r));
+                vensure!(is_version(&r, v) || is_format(&r), "sweep-version", "{}: unsupported version {} with only {} bytes gave {} (must be a Version or Format error)", how, v, n, show(&r));
                 rec.class("sweep:unsupported_version_and_short");
             }
         }
         Some(v) => {
             let min = if v == 3 { 36 } else { 32 };
             if n < min {
-                vensure!(is_format(&r), "sweep-format", "version {} input of {} bytes (< {}) gave {} instead of Format", v, n, min, show(&r));
+                vensure!(is_format(&r), "sweep-format", "{}: version {} input of {} bytes (< {}) gave {} instead of Format", how, v, n, min, show(&r));
                 rec.class("sweep:supported_version_too_short");
             } else {
-                vensure!(r.is_ok() || is_format(&r), "sweep-other", "version {} input of {} bytes gave {} (must be Ok or Format)", v, n, show(&r));
+                vensure!(r.is_ok() || is_format(&r), "sweep-other", "{}: version {} input of {} bytes gave {} (must be Ok or Format)", how, v, n, show(&r));
                 rec.class(if r.is_ok() { "sweep:opens" } else { "sweep:format_error" });
             }
         }
@@ -317,7 +335,7 @@ fn check_big(r: &gen::Recipe, v: &u64, rec: &mut Rec) -> CheckResult {
 
 pub fn run(e: &Engine) {
     crate::crcref::self_test();
-    e.set_rule("cases are (map, format version 1/2/3, writer policy {sharing, one-trans-next, wide packs}, container) encoded by an independent reference encoder, plus committed golden files (v3 from the pinned builder, v1/v2 from the reference encoder) and a header sweep over version values x lengths 0..40; oracle: opens through the container, len/fst_type, verify() = Ok for v3 and ChecksumMissing for v1/v2, query suite (stream, lookups, ranges, searches, set operations) equals the model; sweep: documented error per input, never a panic; non-trivial = version != 3 or a non-Vec container; distinct by (version, container, file digest)");
+    e.set_rule("cases are (map, format version 1/2/3, writer policy {sharing, one-trans-next, wide packs}, container) encoded by an independent reference encoder, plus committed golden files (v3 from the pinned builder, v1/v2 from the reference encoder) and a header sweep over version values x lengths 0..40 and a second one over supported versions x lengths 24..44 x root-address and key-count field values, each input also swapped in through Fst/Map/Set::map_data; oracle: opens through the container, len/fst_type, verify() = Ok for v3 and ChecksumMissing for v1/v2, query suite (stream, lookups, ranges, searches, set operations) equals the model; sweep: documented error per input, never a panic; non-trivial = version != 3 or a non-Vec container; distinct by (version, container, file digest)");
     e.assume("no historical crate release is available offline: files 'emitted by earlier builders' are represented by the reference encoder, whose v1/v2 modes differ from its cross-validated v3 mode only by the missing index (v1) and checksum (v1, v2)");
     let golden = golden_files();
     e.extra("golden_files", json!(golden.len()));
@@ -405,6 +423,37 @@ pub fn run(e: &Engine) {
             let root = (end - 16 - 1) as u64;
             b[end - 8..end].copy_from_slice(&root.to_le_bytes());
             b[end - 16..end - 8].copy_from_slice(&1u64.to_le_bytes());
+        }
+        let s = Sweep { bytes: b };
+        crate::engine::guarded(|| check_sweep(&s, rec)).map_err(|f| (json!({"sweep": hex(&s.bytes)}), f))
+    });
+    // supported versions x lengths 24..44 x root-address field values (small ones, and those within
+    // reach of the length) x key-count field, the footer laid out as version 3 and as versions 1/2
+    let roots_small: Vec<u64> = (0..=24u64).collect();
+    let nroots = roots_small.len() as u64 + 30 + 3;
+    e.run_enum("header-sweep-root-values", 3 * 21 * nroots * 2 * 2, |idx, rec| {
+        let v = 1 + idx % 3;
+        let len = 24 + ((idx / 3) % 21) as usize;
+        let ri = (idx / 63) % nroots;
+        let layout3 = (idx / (63 * nroots)) % 2 == 0;
+        let count = (idx / (63 * nroots * 2)) % 2;
+        let root: u64 = if ri < 25 {
+            ri
+        } else if ri < 55 {
+            (len as u64 + ri - 25).saturating_sub(26) // len-26 .. len+3
+        } else {
+            [1u64 << 32, u64::MAX - 1, u64::MAX][(ri - 55) as usize]
+        };
+        let mut b: Vec<u8> = (0..len).map(|i| crate::engine::mix(seed ^ 0x77, i as u64) as u8 | 1).collect();
+        b[..8].copy_from_slice(&v.to_le_bytes());
+        b[8..16].copy_from_slice(&0u64.to_le_bytes());
+        let end = if layout3 { len - 4 } else { len };
+        // (for short inputs the fields overlap the header's type word: still a byte string)
+        if end >= 32 {
+            b[end - 16..end - 8].copy_from_slice(&count.to_le_bytes());
+        }
+        if end >= 24 {
+            b[end - 8..end].copy_from_slice(&root.to_le_bytes());
         }
         let s = Sweep { bytes: b };
         crate::engine::guarded(|| check_sweep(&s, rec)).map_err(|f| (json!({"sweep": hex(&s.bytes)}), f))
